@@ -36,9 +36,10 @@ type Case struct {
 
 func Spec() *mon.Spec {
 	return &mon.Spec{
-		ID:    "C14",
-		Level: "exploration",
-		Rule:  "built with -race. N in {2,4,8,32} goroutines x M calls share ONE Client (TCP / RTU framing) or SerialClient whose transport is a harness device (reference decoder + simulated memory) that answers each request in arrival order, with PRNG yields/sleeps inside Write and Read and a 'thinking time' before a reply becomes readable. Monitors: (1) exchange-overlap detector in the transport: a Write while the previous reply is unconsumed and its owner neither cancelled nor returned, or a Write that is not exactly one well-formed request frame; (2) reply matching: every call has a unique (address, quantity[, tid]) and the device memory is a hash of the address, verified at return and again after later calls (aliasing of shared buffers); wire sequence = each issued request exactly once; (3) porcupine linearizability check of FC6 writes (unique values) / FC3 reads on 4 registers, partitioned by register; (3b) slow-device cases (40 ms per reply, 8 callers, write timeout 250 ms, a transport that fails writes issued after their deadline) and reconnect cases (one request answered 300 ms late against a 100 ms read timeout, then Connect without Close on a device that does not flush unread replies: every later caller must still get its own reply); (4) Go race detector reports and panics, incl. goroutines calling Close/Connect concurrently and callers whose context is cancelled while they wait. distinct key = hash of the caller-id sequence seen on the wire (interleavings_distinct).",
+		ID:      "C14",
+		RuleAdd: "Later additions (rounds 4-17): a transport that honours write deadlines; slow devices; reconnect without Close; serial ports with Flush; Close in the middle of an exchange; a caller whose request panics inside Do; hook calls grouped per exchange; closed sockets reported as net.ErrClosed; a Connect whose dial fails (nil and typed-nil results) while callers are active, with unsynchronised dial bookkeeping; replies in two bursts with an empty read between; a unit-0 write among the calls.",
+		Level:   "exploration",
+		Rule:    "built with -race. N in {2,4,8,32} goroutines x M calls share ONE Client (TCP / RTU framing) or SerialClient whose transport is a harness device (reference decoder + simulated memory) that answers each request in arrival order, with PRNG yields/sleeps inside Write and Read and a 'thinking time' before a reply becomes readable. Monitors: (1) exchange-overlap detector in the transport: a Write while the previous reply is unconsumed and its owner neither cancelled nor returned, or a Write that is not exactly one well-formed request frame; (2) reply matching: every call has a unique (address, quantity[, tid]) and the device memory is a hash of the address, verified at return and again after later calls (aliasing of shared buffers); wire sequence = each issued request exactly once; (3) porcupine linearizability check of FC6 writes (unique values) / FC3 reads on 4 registers, partitioned by register; (3b) slow-device cases (40 ms per reply, 8 callers, write timeout 250 ms, a transport that fails writes issued after their deadline) and reconnect cases (one request answered 300 ms late against a 100 ms read timeout, then Connect without Close on a device that does not flush unread replies: every later caller must still get its own reply); (4) Go race detector reports and panics, incl. goroutines calling Close/Connect concurrently and callers whose context is cancelled while they wait. distinct key = hash of the caller-id sequence seen on the wire (interleavings_distinct).",
 		Assumptions: []string{"FC23 is left out (its expected-length formula times out on every reply, C07 known finding)", "serial client histories are short (30 ms sleep inside every Do)",
 			"after a cancelled caller abandons its reply the device flushes it (what happens to the next caller after a cancellation is outside this property)"},
 		NewCase:      func() any { return &Case{} },
